@@ -29,6 +29,9 @@ CLAIMED = {
  "C03": dict(cat="fault_enumeration", tech="Lean 4 totality / no-growth / element-count theorems for the specification decoder + systematic fault enumeration of the implementation under catch_unwind, counting allocator and RLIMIT_AS",
              text="Partial by nature: Lean proves that the specification decoder is total and never needs more array elements than input bytes (decode_total, decMembers_no_growth, iterDec_count, iterDecAll_count — all containers, by mutual induction). The implementation's behaviour on hostile bytes depends on the allocator and runtime, so it is established by fault enumeration: every canonical frame and every wowm test vector (incl. compressed messages) is truncated at every prefix, every 1/2/4-byte window is set to 0/1/2/max/max-half, header sizes are shifted, random bytes and random frames per opcode are tried (~570k decodes in the quick tier); each decode runs under catch_unwind with a counting global allocator and a 4 GiB address-space limit. Oracle: a message or an error, no panic/abort, single allocations within 64 x frame + 32 MiB. Four panics/unbounded allocations were repaired in /repo; the capacity-before-guard defect of counted arrays is a known finding.",
              note="Observed, not proved: allocator behaviour, stack use, wall clock. Trusted: harness, counting allocator, the generator of faults.", ref="§4 C03"),
+ "C09": dict(cat="proof", tech="Lean 4 theorems (const_sized for every constant-sized container via decode_encode + fixedMs_consumes; leaf_bounds_sound) + interval model `bounds` evaluated per container and compared with every size guard re-extracted from the generated readers",
+             text="The model computes, per container, the true extremal lengths over the whole conditional structure by interval arithmetic (not sampling). Lean proves that a syntactically constant-sized container encodes every value to exactly that size and that leaf encodings respect their intervals under the published limits; the general interval soundness is validated on sampled and minimal encodings (stated as such). On every run the size guard compiled into each generated world reader (2,329 messages) is re-extracted and must contain the model interval capped by the direction's frame limit, constant-sized iff the guard is `!=`; limits (CString 256, SizedCString 8004, String, endless 65535, CMSG 10240) are re-read from the generator source. Minimal and random canonical encodings outside a published guard are the replay.",
+             note="Trusted: Lean kernel; regex extraction of guards; wowm.py/corpus.py. Not yet proved: bounds_sound for arbitrary nestings (checked by samples); IR/doc published sizes are checked by C10/C18.", ref="§4 C09"),
 }
 NA_REASON = "not yet claimed: machinery for this property is still under construction (see DESIGN.md §7 order of construction)"
 
